@@ -384,6 +384,8 @@ class Interp:
             elif isinstance(base, DictV):
                 if isinstance(idx, Const):
                     base.d[idx.v] = v
+                elif isinstance(idx, TupleV) and self.transfer.dict_key(idx) is not None:
+                    base.d[self.transfer.dict_key(idx)] = v
                 base.stores.append((tuple(self.frames), idx, v, None, stmt))
             elif isinstance(base, ListV):
                 base.log.append(("setitem", idx, v, tuple(self.frames)))
@@ -1297,6 +1299,8 @@ class Interp:
                 return any(x.p == item.p for x in fl)
         if isinstance(cont, DictV) and isinstance(item, Const) and self.transfer.dict_stores_exact(cont):
             return item.v in cont.d
+        if isinstance(cont, DictV) and isinstance(item, TupleV) and self.transfer.dict_key(item) is not None and self.transfer.dict_stores_exact(cont):
+            return self.transfer.dict_key(item) in cont.d
         return None
 
     def ev_IfExp(self, e, cc):
